@@ -7,7 +7,7 @@ import tlc
 from common import Machinery, Verdict, seed
 from pool import run_chunks
 
-INVARIANTS = ["TypeOK", "Refines", "RowIndep", "TermsRefine", "Layout", "Untouched", "Emit"]
+INVARIANTS = ["TypeOK", "Refines", "RowIndep", "TermsRefine", "Layout", "Untouched", "SymConsistent", "Emit"]
 
 TIERS = {
     # constants of MC_HFModel per tier; emit = fraction of specifications printed for replay
@@ -49,6 +49,24 @@ def tlc_sim(tier, sd):
     return tlc.run("MC_HFModel", cfg, workers=4, simulate=f"num={t['num']}", depth=t["depth"], timeout=3600, tag=f"sim{sd}", rseed=2000 + sd)
 
 
+def spec_ainv():
+    """the code-4 inverse boundary matrix as the SPECIFICATION has it (HFInterp.tla, A*AInv = Id proved by TLC)"""
+    import json
+    from common import frac
+    cfg = tlc.make_cfg(dict(Codes={0, 1, 2, 4, 44}, MaxDepth=1, Backends={'"numpy"'}, EmitCases=True, EmitMod=1000000, EmitRes=999999),
+                       invariants=["CachesMatchAtUse", "ImplEqDef", "Emit"])
+    r = tlc.run("MC_HFInterp", cfg, workers=2, timeout=600)
+    out = {}
+    if r.cases_path:
+        for ln in open(r.cases_path):
+            if ln.startswith('{"ainv"'):
+                d = json.loads(ln)
+                out[str(frac(d["a0"]))] = d["ainv"]
+    if len(out) != 3:
+        raise Machinery("could not obtain AInv from HFInterp.tla")
+    return out
+
+
 def group_chunks(lines, nchunks):
     """cases of one (spec, setting) stay together and adjacent"""
     import json
@@ -86,6 +104,7 @@ def run(prop: str, tier: str) -> int:
     # C01's text covers "batched or not": its replay includes the batched rows as well
     props = {"C01": ["C01", "C10"], "C02": ["C02"], "C10": ["C10"], "C12": ["C12", "C01"]}[prop]
     accept = {"C01": {"C01", "C10"}, "C02": {"C02"}, "C10": {"C10"}, "C12": {"C12"}}[prop]
+    ainv = spec_ainv() if "C01" in props else None
     total = nontriv = specs = 0
     per_backend = {}
     for bi, (be, prec) in enumerate(backends):
@@ -106,7 +125,7 @@ def run(prop: str, tier: str) -> int:
         chunks, nspecs = group_chunks(use, 64 if bi == 0 else 16)
         n_be = 0
         for out in run_chunks("hfworker", "replay", chunks, backend=be, precision=prec, procs=16,
-                              kwargs={"props": props, "seed": sd * 1000 + bi, "extra_batch": tier == "thorough"}):
+                              kwargs={"props": props, "seed": sd * 1000 + bi, "extra_batch": tier == "thorough", "ainv": ainv}):
             if "machinery" in out:
                 raise Machinery(out["machinery"])
             total += out["n"]
